@@ -2,7 +2,7 @@
 # usage: tools/refactor_sweep.sh <id>...   — apply each behaviour-preserving refactor of /tmp/seedout3/<id>/R*/ to a scratch tree and run ALL checks
 export GOFLAGS=-mod=mod GOPROXY=off GOSUMDB=off GOTOOLCHAIN=local; unset GOWORK
 PC=${PC:-/tmp/pcdbg2}; T=${T:-/tmp/dbg2}
-for id in "$@"; do for r in /tmp/seedout3/$id/R*/; do
+for id in "$@"; do for r in /verif/refactors/$id-R*/; do
   [ -f $r/patch.diff ] || continue
   git -C $T checkout -q -- . && git -C $T clean -fdq
   if ! git -C $T apply $r/patch.diff 2>/dev/null; then echo "== $id $(basename $r) PATCH-DOES-NOT-APPLY"; continue; fi
